@@ -240,12 +240,31 @@ def r2(ctx):
             if not ok_fold:
                 break
             it, _, clo = fparts[0][2]
-            ok_fold &= diff in subterms(it) and any(x[0] == "adt" and "BitBoardIter" in x[1] or x[0] == "app" and "BitBoardIter" in x[1] for x in subterms(it)) and clo[0] == "closure"
+            ok_fold &= diff in subterms(it) and any(x[0] == "adt" and "BitBoardIter" in x[1] or x[0] == "app" and "BitBoardIter" in x[1] for x in subterms(it)) and clo[0] in ("closure", "fn")
             if not ok_fold:
                 break
-            clv = T.Engine(P).tabulate(clo[1])
-            cb = P.body(clo[1])
-            env, acc, pos_p = [("param", i, cb["locals"][i + 1]["n"]) for i in range(3)]
+            # the combining step is `acc ^ f(item)`: f is the key lookup itself, or the items were mapped to their keys first (`.map(key).fold(0, ^)`)
+            plain_xor = clo[0] == "fn" and "BitXor" in clo[1]
+            if clo[0] == "closure":
+                clv0 = T.Engine(P).tabulate(clo[1])
+                cb0 = P.body(clo[1])
+                e0, a0_, i0 = [("param", i, cb0["locals"][i + 1]["n"]) for i in range(3)]
+                plain_xor = len(clv0) == 1 and sorted(map(str, xor_terms(clv0[0].ret))) == sorted(map(str, [a0_, i0]))
+            if plain_xor:
+                ok_fold &= it[0] == "app" and "Iterator>::map::<" in it[1] and len(it[2]) == 2 and it[2][1][0] == "closure"
+                if not ok_fold:
+                    break
+                clo = it[2][1]
+                clv = T.Engine(P).tabulate(clo[1])
+                cb = P.body(clo[1])
+                env, pos_p = [("param", i, cb["locals"][i + 1]["n"]) for i in range(2)]
+                acc = ("acc",)
+                for cl in clv:
+                    cl.ret = ("bin", "BitXor", acc, cl.ret)
+            else:
+                clv = T.Engine(P).tabulate(clo[1])
+                cb = P.body(clo[1])
+                env, acc, pos_p = [("param", i, cb["locals"][i + 1]["n"]) for i in range(3)]
             ok_fold &= len(clv) == 1
             for cl in clv:
                 ts = xor_terms(cl.ret)
